@@ -753,4 +753,136 @@ theorem Reachable.invL {m : Mode} {k : Nat} {t0 : Time} {s : State} (h : Reachab
   | step hr hs ih => exact ih.step hr.invW hr.invC hr.invI hs
 
 
+theorem Reachable.ws_length {m : Mode} {k : Nat} {t0 : Time} {s : State} (h : Reachable m k t0 s) :
+    s.ws.length = k := by
+  induction h with
+  | init => simp [Sched.init]
+  | step _ hs ih =>
+    rename_i s s' l _
+    cases l with
+    | tick d => simp only [Sched.step, Option.some.injEq] at hs; subst hs; exact ih
+    | put id ts => simp only [Sched.step] at hs; split at hs <;> cases hs; exact ih
+    | notify => simp only [Sched.step] at hs; split at hs <;> cases hs; exact ih
+    | takeToken => simp only [Sched.step] at hs; split at hs <;> cases hs; exact ih
+    | swap => simp only [Sched.step] at hs; split at hs <;> cases hs; exact ih
+    | handoff i =>
+      obtain ⟨t, rest, w, w', _, _, _, _, rfl⟩ := step_handoff hs
+      simpa using ih
+    | w i l =>
+      obtain ⟨w, out, _, _, rfl⟩ := step_w hs
+      simpa using ih
+
+theorem step_w_isSome {m : Mode} {s : State} {i : Nat} {w : Worker} {l : WLabel}
+    (hw : s.ws[i]? = some w) (h : (wstep m s.now w l).isSome) : (step m s (.w i l)).isSome := by
+  obtain ⟨out, ho⟩ := Option.isSome_iff_exists.mp h
+  simp [Sched.step, hw, ho]
+
+theorem run_cons (m : Mode) (s : State) (l : Label) (ls : List Label) :
+    run m s (l :: ls) = match step m s l with
+      | none => none
+      | some s' => run m s' ls := rfl
+
+theorem run_tick_then {m : Mode} {s : State} {d : Nat} {l : Label}
+    (h : (step m { s with now := s.now + d } l).isSome) : (run m s [.tick d, l]).isSome := by
+  obtain ⟨s', hs'⟩ := Option.isSome_iff_exists.mp h
+  have h1 : step m s (.tick d) = some { s with now := s.now + d } := rfl
+  have h2 : run m s [.tick d, l] = some s' := by
+    rw [run_cons, h1]; dsimp only; rw [run_cons, hs']; rfl
+  rw [h2]; rfl
+
+theorem run_tick0_then {m : Mode} {s : State} {l : Label}
+    (h : (step m s l).isSome) : (run m s [.tick 0, l]).isSome := by
+  apply run_tick_then
+  simpa using h
+
+theorem exists_held_of_heldAll_ne_nil : ∀ {ws : List Worker}, heldAll ws ≠ [] →
+    ∃ (i : Nat) (w : Worker), ws[i]? = some w ∧ held w ≠ []
+  | [], h => by simp [heldAll] at h
+  | x :: ws, h => by
+    by_cases hx : held x = []
+    · have : heldAll ws ≠ [] := by
+        intro hnil; apply h
+        simp only [heldAll, List.map_cons, List.flatten_cons, hx, List.nil_append] at hnil ⊢
+        exact hnil
+      obtain ⟨i, w, hw, hne⟩ := exists_held_of_heldAll_ne_nil this
+      exact ⟨i + 1, w, by simpa using hw, hne⟩
+    · exact ⟨0, x, by simp, hx⟩
+
+/-- while a task is pending the system is never stuck: after letting time pass (only needed when
+    every remaining task waits for its timer) some step other than a new `Put` is enabled -/
+theorem no_deadlock {m : Mode} {k : Nat} {t0 : Time} {s : State} (h : Reachable m k t0 s) (hk : 0 < k)
+    (hp : pendingTasks s ≠ []) :
+    ∃ d l, (∀ id ts, l ≠ .put id ts) ∧ (∀ d', l ≠ .tick d') ∧ (run m s [.tick d, l]).isSome := by
+  by_cases hall : ∀ w, w ∈ s.ws → w.pc = .select
+  · -- every worker stands at its select
+    by_cases hpend : 0 < s.pend
+    · exact ⟨0, .notify, by simp, by simp, run_tick0_then (by simp [Sched.step]; omega)⟩
+    cases hppc : s.ppc with
+    | gotToken => exact ⟨0, .swap, by simp, by simp, run_tick0_then (by simp [Sched.step, hppc])⟩
+    | idle =>
+      cases hb : s.batch with
+      | cons t rest =>
+        have hlen := h.ws_length
+        have h0 : 0 < s.ws.length := by omega
+        have hw0 : s.ws[0]? = some s.ws[0] := List.getElem?_eq_getElem h0
+        have hsel := hall _ (List.getElem_mem h0)
+        exact ⟨0, .handoff 0, by simp, by simp,
+          run_tick0_then (by simp [Sched.step, hppc, hb, hw0, Worker.recvTask, hsel])⟩
+      | nil =>
+        by_cases htok : s.ntok = true
+        · exact ⟨0, .takeToken, by simp, by simp, run_tick0_then (by simp [Sched.step, hppc, hb, htok])⟩
+        · -- nothing in flight in stage 1, so `pre` is empty and a worker holds a task
+          have hpre : s.pre = [] := by
+            by_cases hne : s.pre = []
+            · exact hne
+            · rcases h.invH hne with h1 | h1 | h1
+              · exact absurd h1 htok
+              · simp [hppc] at h1
+              · exact absurd h1 hpend
+          have hheld : heldAll s.ws ≠ [] := by
+            simpa [pendingTasks, hpre, hb] using hp
+          obtain ⟨i, w, hwi, hne⟩ := exists_held_of_heldAll_ne_nil hheld
+          have hmem := List.mem_of_getElem? hwi
+          have hsel := hall w hmem
+          have hheap : w.heap ≠ [] := by simpa [held, hsel] using hne
+          have hq : w.quiet s.now := by
+            have := (h.invW w hmem).2
+            simpa only [hsel] using this
+          obtain ⟨h1, h2, h3⟩ := hq
+          cases hd : w.drained with
+          | true => exact absurd (h1 hd).2 hheap
+          | false =>
+            rcases h2 hd with ⟨ha, _⟩ | ⟨_, hc⟩
+            · obtain ⟨wh, hwh⟩ := Option.isSome_iff_exists.mp ha
+              refine ⟨wh - s.now, .w i (.fire wh), by simp, by simp, run_tick_then ?_⟩
+              apply step_w_isSome (w := w) (by simpa using hwi)
+              have hle : wh ≤ s.now + (wh - s.now) := by unfold Time at *; omega
+              simp [wstep, hwh, hle]
+            · obtain ⟨v, hv⟩ := Option.isSome_iff_exists.mp hc
+              exact ⟨0, .w i .recvTimer, by simp, by simp,
+                run_tick0_then (step_w_isSome hwi (by simp [wstep, hsel, hv]))⟩
+  · -- some worker is inside its critical section: it can always move on
+    have : ∃ w, w ∈ s.ws ∧ w.pc ≠ .select := by
+      apply Classical.byContradiction
+      intro hno
+      apply hall
+      intro w hw
+      apply Classical.byContradiction
+      intro hne
+      exact hno ⟨w, hw, hne⟩
+    obtain ⟨w, hw, hne⟩ := this
+    obtain ⟨i, hi⟩ := List.getElem?_of_mem hw
+    obtain ⟨l, hnf, hen⟩ := wstep_enabled (h.invW w hw) hne
+    exact ⟨0, .w i l, by simp, by simp, run_tick0_then (step_w_isSome hi hen)⟩
+
+
+theorem Reachable.run {m : Mode} {k : Nat} {t0 : Time} : ∀ {ls : List Label} {s s' : State},
+    Reachable m k t0 s → Sched.run m s ls = some s' → Reachable m k t0 s'
+  | [], s, s', h, hr => by cases hr; exact h
+  | l :: ls, s, s', h, hr => by
+    rw [run_cons] at hr
+    split at hr <;> try contradiction
+    rename_i s1 hs1
+    exact Reachable.run (h.step hs1) hr
+
 end KcpVerif.Sched
